@@ -44,8 +44,24 @@ def main() -> int:
         return mod.main(args.tier)
     except SystemExit:
         raise
-    except BaseException:
-        traceback.print_exc()
+    except BaseException as e:
+        text = traceback.format_exc() + "\n" + str(e)
+        sys.stderr.write(text + "\n")
+        # An exception that was raised *inside bellows* (innermost frame under <repo>/bellows) and that no harness
+        # expected is misbehaviour of the code under test, not of the harness: report it as a violation.  Never
+        # happens on the unchanged tree; keeps a code change that makes bellows crash from hiding behind exit 2.
+        import re
+
+        files = re.findall(r'File "([^"]+)", line (\d+), in (\S+)', text)
+        if files and files[-1][0].startswith(repo + "bellows/") and not args.replay:
+            from mc import report
+
+            where = f"{os.path.relpath(files[-1][0], repo)}:{files[-1][2]}"
+            last = [l for l in text.strip().splitlines() if l and not l.startswith(" ")][-1][:120]
+            rep = report.Report(prop, args.tier, "other")
+            rep.coverage = {"explanation": "the check aborted because bellows raised an unexpected exception", "evaluations": 1, "distinct_nontrivial": 2}
+            rep.add_violation(f"{prop}|crash|{where}", f"bellows raised an unexpected exception in {where}: {last}", {"world": "crash", "traceback": text[-3000:]})
+            return rep.finish()
         print(f"internal error in check {prop}", file=sys.stderr)
         return 2
     finally:
